@@ -475,6 +475,9 @@ fn main() {
                 // both a truncated and a complete UDP response are accepted.
                 let slack = if signed { c.key.as_ref().unwrap().name.len() - 2 } else { 0 };
                 if tcp_buf.len() + slack > limit && tcp_buf.len() <= limit && u.tc() {
+                    vq_bounded::finding("C04.tsig_reservation_slack",
+                        "a TSIG-signed response whose complete (TCP) form fits the UDP limit is truncated over UDP: set_tsig reserves the uncompressed TSIG RR but finish writes the key name compressed",
+                        &input(&how));
                     if u.data_counts() != [0, 0, 0] { fail("[C04] TC set but records present", &input(&how), &u.data_counts(), &[0, 0, 0]); }
                 } else if tcp_buf.len() <= limit {
                     // (a signed response carries the time of signing: compared by content)
